@@ -82,15 +82,22 @@ package dockerlog
 
 //@ scope dockerlog.go
 
+// Docker labels are applied over the built-in ones in sorted key order: when two keys get the same
+// sanitised name the same one wins on every call (no dependence on map iteration order).
 //@ func getLabels
 //@   capture k = call(otelstorage.KeyToLabel, 0)
+//@   capture so = call(slices.Sort, 0)
 //@   loop 0 entry_ensures[built-in-labels] labels != nil && labels["container_id"] == ctr.ID && labels["container_image"] == ctr.Image && labels["container_image_id"] == ctr.ImageID && labels["container_command"] == ctr.Command && labels["container_state"] == ctr.State && labels["container_status"] == ctr.Status && labels["container_created"] == strconv.FormatInt(ctr.Created, 10)
 //@   loop 0 entry_ensures[name-without-slash] len(ctr.Names) > 0 ==> labels["container"] == strings.TrimPrefix(ctr.Names[0], "/") && labels["container_name"] == labels["container"]
 //@   loop 0 entry_ensures[no-name] len(ctr.Names) == 0 ==> labels["container"] == "" && labels["container_name"] == ""
 //@   ensures[returns-that-map] ret0.labels != nil
-//@   loop 0 modifies labels[*]
-//@   loop 0 invariant labels != nil
-//@   loop 0 body_ensures[docker-label-under-sanitised-name] k_called && k_a0 == label && has(labels, k_r0) && labels[k_r0] == value
+//@   loop 0 modifies names[*]
+//@   loop 0 invariant labels != nil && fresh(names)
+//@   loop 0 body_ensures[every-docker-label-is-listed] len(names) == head(len(names)) + 1 && names[len(names)-1] == label
+//@   ensures[keys-visited-in-sorted-order] so_called && same(so_a0, names)
+//@   loop 1 modifies labels[*]
+//@   loop 1 invariant labels != nil && rangeindex+1 <= len(names)
+//@   loop 1 body_ensures[docker-label-under-sanitised-name] k_called && k_a0 == names[rangeindex] && has(labels, k_r0) && labels[k_r0] == ctr.Labels[names[rangeindex]]
 
 //@ func (*Querier).Capabilities
 //@   ensures[line-filters-never-offloaded] caps.Line == 0
@@ -194,6 +201,13 @@ package dockerlog
 //@   loop 0 modifies nothing
 //@   loop 0 body_ensures[label-becomes-attribute] ps_called && ps_a0 == key && ps_a1 == value
 
+// since / until go to the daemon as "<seconds>.<nanoseconds>" of the instant: whole seconds would
+// cut off the records of the last, partial second of the requested range.
+//@ func formatDockerTimestamp
+//@   pure
+//@   capture sp = call(fmt.Sprintf, 0)
+//@   ensures[seconds-and-nanoseconds-of-the-instant] sp_called && sp_a0 == "%d.%09d" && len(sp_a1) == 2 && typeis[int64](sp_a1[0]) && as[int64](sp_a1[0]) == t.Unix() && typeis[int](sp_a1[1]) && as[int](sp_a1[1]) == t.Nanosecond() && ret0 == sp_r0
+
 //@ func (*Querier).openLog
 //@   capture cl = call(q.client.ContainerLogs, 0)
 //@   capture pl = call(ParseLog, 0)
@@ -201,7 +215,7 @@ package dockerlog
 //@   modifies nothing
 //@   ensures[asks-for-this-container] cl_called && cl_a1 == ctr.ID
 //@   ensures[both-streams-with-timestamps] cl_a2.ShowStdout && cl_a2.ShowStderr && cl_a2.Timestamps && cl_a2.Tail == "all" && !cl_a2.Follow
-//@   ensures[window-in-whole-seconds] (!start.AsTime().IsZero() ==> cl_a2.Since == strconv.FormatInt(start.AsTime().Unix(), 10)) && (!end.AsTime().IsZero() ==> cl_a2.Until == strconv.FormatInt(end.AsTime().Unix(), 10))
+//@   ensures[window-sent-with-its-fraction] (!start.AsTime().IsZero() ==> cl_a2.Since == formatDockerTimestamp(start.AsTime())) && (!end.AsTime().IsZero() ==> cl_a2.Until == formatDockerTimestamp(end.AsTime()))
 //@   ensures[open-error-surfaces] cl_r1 != nil ==> ret1 != nil && !pl_called
 //@   ensures[lines-carry-this-containers-labels] cl_r1 == nil ==> ret1 == nil && pl_called && same(pl_a0, cl_r0) && ar_called && same(ar_recv, ctr.labels) && same(pl_a1, ar_r0) && ret0 == pl_r0
 
